@@ -1,4 +1,5 @@
 import Tahoe.Happiness.LemmasBrute
+import Tahoe.Happiness.LemmasMerge
 /-!
 C08 — the happiness value equals the size of a maximum server/share matching.
 
@@ -14,6 +15,17 @@ sublists of `E`.  A sharemap is a list of `(share, list of servers)`: *any* list
 holds for every insertion order of the dict and every iteration order of its sets.
 Helper lemmas: `Tahoe/Happiness/Lemmas*.lean` (loop invariant "the flow matrix is the indicator of
 a matching", BFS soundness/completeness, alternating-path augmentation, König cover argument).
+
+## Coverage of the statement
+
+| clause of the statement | theorem(s) over the model |
+|---|---|
+| "the servers-of-happiness value computed for any mapping from share numbers to sets of servers … equals the size of a maximum matching between servers and the shares they hold" | `soh_eq_maxMatching` (= exhaustive maximum over edge subsets injective in both coordinates), `soh_is_maxMatchingSize` (attained, and an upper bound of every matching); ingredients exported: `loop_exit_no_augmenting_path`, `bfs_sound_complete`, `soh_of_servermap` |
+| "(used for upload decisions and in check results)": the callers pass `merge_servers(existing, trackers)` / a checker's sharemap | `merge_servers_relation` (the merged map relates exactly the pairs of both arguments), `soh_of_merged` (its happiness is the maximum matching number of that union), `shares_by_server_converse`; the call sites themselves (upload.py, checker.py, filenode.py) are not modelled: they pass the dict through unchanged — not covered beyond that |
+| "it does not depend on the iteration order of the mapping" | `soh_order_independent` (same pairs ⇒ same value, for any order and multiplicity), and every theorem above quantifies over all list presentations |
+
+Nothing of the statement is "correspondence only"; the tie of the model to the code is the trace
+comparison in `harness/props/c08.py` (flow network, every residual network, BFS table, path, value).
 -/
 namespace Tahoe.C08
 open Tahoe.Happiness
@@ -62,6 +74,38 @@ theorem soh_of_servermap (sm : SetMap) (hk : (sm.map (·.1)).Nodup) (hr : ∀ e 
 
 example : ([(7, [3, 1]), (2, [1])].map (·.1)).Nodup ∧ ∀ e ∈ [(7, [3, 1]), (2, [1])], e.2.Nodup := by
   decide
+
+/-- `shares_by_server` returns the converse relation as a well-formed dict: distinct servers,
+duplicate-free share sets, exactly the pairs of the argument -/
+theorem shares_by_server_converse (m : SetMap) :
+    ((sharesByServer m).map (·.1)).Nodup ∧ (∀ e ∈ sharesByServer m, e.2.Nodup) ∧
+    ∀ e, e ∈ relOfServermap (sharesByServer m) ↔ e ∈ rel m := by
+  obtain ⟨h1, h2⟩ := sharesByServer_spec m
+  exact ⟨h1.1, fun e he => nodup_of_sorted _ (h1.2 e he), h2⟩
+
+example : sharesByServer [(0, [2, 1]), (1, [2])] = [(2, [0, 1]), (1, [0])] := by decide
+
+/-- `merge_servers(servermap, upload_trackers)` relates exactly the (server, share) pairs of the
+servermap and, for every tracker `(serverid, buckets)`, the server with each of its buckets -/
+theorem merge_servers_relation (m trackers : SetMap) (p s : Nat) :
+    (p, s) ∈ rel (mergeServers m trackers) ↔ (p, s) ∈ rel m ∨ ∃ t ∈ trackers, t.1 = p ∧ s ∈ t.2 :=
+  mergeServers_rel m trackers p s
+
+example : mergeServers [(0, [1])] [(2, [0, 3])] = [(0, [1, 2]), (3, [2])] := by decide
+
+/-- the happiness the uploader computes after a round, `servers_of_happiness(merge_servers(m, t))`,
+is the maximum matching number of the union of the existing pairs and the trackers' pairs -/
+theorem soh_of_merged (m trackers : SetMap) (E : List (Nat × Nat))
+    (hE : ∀ p s, (p, s) ∈ E ↔ (p, s) ∈ rel m ∨ ∃ t ∈ trackers, t.1 = p ∧ s ∈ t.2) :
+    serversOfHappiness (mergeServers m trackers) = (maxMatchingBrute E : Int) := by
+  obtain ⟨k, h1, h2⟩ := serversOfHappiness_spec (mergeServers m trackers)
+  have hcongr : ∀ e, e ∈ rel (mergeServers m trackers) ↔ e ∈ E := by
+    intro e; obtain ⟨p, s⟩ := e
+    rw [mergeServers_rel, hE]
+  rw [h1, isMaxMatchingSize_unique ((isMaxMatchingSize_congr hcongr k).mp h2) (maxMatchingBrute_spec E)]
+
+example : serversOfHappiness (mergeServers [(0, [1])] [(2, [0, 3])]) = 2 ∧
+    maxMatchingBrute [(1, 0), (2, 0), (2, 3)] = 2 := by decide +kernel
 
 /-- the loop exits because `augmenting_path_for` returned `False`, never because the fuel
 `len(graph)` ran out; at that point the flow matrix is the indicator of a matching `M` of the
